@@ -33,9 +33,14 @@ def run(ctx):
                "{absent, 1, 2, 2.0, 'a', true}; floats are half-integers; strings from a 5-element table",
                "results are compared as bags; lists (collect) as bags of elements; in queries with DISTINCT / grouping / UNION "
                "numerically equal values (2 and 2.0) are identified because the representative of a class is not defined")
+    stats = {}
     for fam, scripts in total:
         sp = ctx.write_scripts(fam, scripts)
         tr = ctx.run_harness("cyread", sp, name=fam, args=["mode=c01"])
         n, ok, err = count_cases(tr)
+        shape_stats(tr, stats)
         ctx.log("%s: %d cases, %d answered, %d refused" % (fam, n, ok, err))
         ctx.validate("CypherRead_Trace", trace_cfg(ctx), tr, name=fam, corrupt=corrupt_outcome("out"))
+    ctx.cov["query_shapes"] = len(stats)
+    ctx.cov["query_shapes_refused"] = sorted(k for k, v in stats.items() if v[1] > 0)[:40]
+    record_shapes(ctx, stats)
